@@ -77,3 +77,55 @@ impl Topk {
         Topk { descending: Some(n.descending.unwrap_or_default()), nullable: n.nullable.unwrap_or(true) }
     }
 }
+
+/// source-struct coverage and oneof tag round trip (C35): seeded positives / negatives
+pub mod lp {
+    pub struct Scan {
+        pub name: String,
+        pub fetch: Option<usize>,
+    }
+    pub struct Sort {
+        pub key: String,
+        pub asc: bool,
+    }
+    pub enum Plan {
+        Scan(Scan),
+        Sort(Sort),
+        IsTrue(Box<Plan>),
+        IsFalse(Box<Plan>),
+    }
+    pub struct ScanMsg {
+        pub name: String,
+    }
+    pub struct SortMsg {
+        pub key: String,
+        pub asc: bool,
+    }
+    pub enum Wire {
+        Scan(ScanMsg),
+        Sort(SortMsg),
+        IsTrue(Box<Wire>),
+        IsFalse(Box<Wire>),
+    }
+    /// seeded: Scan.fetch is never read
+    pub fn encode(p: &Plan) -> Result<Wire, String> {
+        match p {
+            Plan::Scan(Scan { name, .. }) => Ok(Wire::Scan(ScanMsg { name: name.clone() })),
+            Plan::Sort(Sort { key, asc }) => Ok(Wire::Sort(SortMsg { key: key.clone(), asc: *asc })),
+            Plan::IsTrue(c) => Ok(Wire::IsTrue(Box::new(encode(c)?))),
+            Plan::IsFalse(c) => Ok(Wire::IsFalse(Box::new(encode(c)?))),
+        }
+    }
+    fn unary(c: &Wire, make: fn(Box<Plan>) -> Plan) -> Result<Plan, String> {
+        Ok(make(Box::new(decode(c)?)))
+    }
+    /// seeded: the arm for IsFalse builds IsTrue
+    pub fn decode(w: &Wire) -> Result<Plan, String> {
+        match w {
+            Wire::Scan(m) => Ok(Plan::Scan(Scan { name: m.name.clone(), fetch: None })),
+            Wire::Sort(m) => Ok(Plan::Sort(Sort { key: m.key.clone(), asc: m.asc })),
+            Wire::IsTrue(c) => unary(c, Plan::IsTrue),
+            Wire::IsFalse(c) => unary(c, Plan::IsTrue),
+        }
+    }
+}
